@@ -2,19 +2,32 @@ package main
 
 // C13 — data scopes (app/scope/datascope).
 //
-// (1) sequential differential test: random chains of depth 1..5 (datascope.New / NewChild), random
-//     histories of SetValue / Value / Keys and locker (LockData .. Commit) operations on random
-//     levels; every observation is emitted in a CSeq case for the Coq model.  L2 oracles on the
-//     implementation alone, after every operation and for every (scope, key): a scope answers its
-//     own binding if it has one, else what its parent answers now; a SetValue changes nothing in
-//     any ancestor; Keys = own keys.
-// (2) concurrent: 8 goroutines x 2000 locked increments (lock; read; write marker; write v+1;
-//     commit) with plain readers (must never see the marker, values never decrease) and a plain
-//     writer on another key; the final value must be initial + 16000.  A smaller run records the
-//     order of the locked sections with the value read in each and is emitted as a CCounter case
-//     (the Coq model must replay it).
+// (1) sequential differential test: random chains of depth 1..5 and a few long ones (9..402 levels,
+//     datascope.New / NewChild), random histories of SetValue / Value / Keys and locker operations
+//     on random levels: single-operation sections (LockData; op; Commit) and sections kept open over
+//     several operations - 40% of them through a nested locker (locker.LockData) - with plain
+//     operations on OTHER levels in between; a second child of level 1 made mid-history.  Keys and
+//     values are codes; a third of the cases decode them as look-alike Go keys ("a", a named string
+//     type holding "a", 1, int64(1), "1", "", nil, an array, a pointer, 4 KiB, non-UTF-8) and as
+//     zero values, typed nils and uncomparable values.  Every observation is emitted in a CSeq case
+//     for the Coq model.  L2 oracles on the implementation alone, after every operation and for
+//     every (scope, key): a scope answers its own binding if it has one, else what its parent
+//     answers now (so a SetValue changes nothing in any ancestor or sibling); inside a section the
+//     same through the locker; Keys = own keys.
+// (2) concurrent.  Forced: a holder keeps a section of scope j open while a plain Value / SetValue
+//     (also of nil) / Keys, a second LockData, a Value through the innermost child and the lockers
+//     of j's child begin: none is over before the Commit begins, all see the committed state.
+//     Free-running: 8 goroutines x 2000 locked increments (lock; read; write marker; add a pair of
+//     keys; write v+1; commit) on every position of a chain, with plain readers (must never see the
+//     marker, values never decrease), plain writers, key listings (a pair is whole), read-only
+//     sections and sections of the child reading through the overlay; the final value must be
+//     initial + 16000.  A smaller run records the order of the locked sections with the value read
+//     in each and is emitted as a CCounter case (the Coq model must replay it).
 // (3) the three real get-or-create services (tasks.Unit.FromScope, envs.Unit.Envs,
-//     waits.WaitManager.ForScope) called from 16 goroutines on one scope: one instance.
+//     waits.WaitManager.ForScope) called from 16 goroutines on one scope - a root, a child data
+//     scope, a real child scope (scope.NewChild) whose parent has / lacks / concurrently gets an
+//     instance: one instance, the parent's untouched; FromScope against concurrent Clear (at most
+//     one manager per Clear + 1) and after BindScope (the bound one).
 // Everything that may hang runs under a watchdog; the whole run is a child process because a
 // broken lock shows up as Go's unrecoverable "concurrent map writes".
 
@@ -23,6 +36,7 @@ import (
 	"fmt"
 	"os"
 	"os/exec"
+	"reflect"
 	"runtime"
 	"sort"
 	"strings"
@@ -69,7 +83,78 @@ func runC13(o *Out, rng *RNG, tier string, replay string) {
 		map[string]interface{}{"op": "concurrent", "stderr": msg, "note": "replay with the same seed"})
 }
 
-// ----- values: int keys, int values, 0 = nil
+// ----- keys and values are CODES (the model's N); a universe says which Go key / value a code is.
+//
+// plain universe: key code n = int(n), value code n = int(n), value code 0 = nil.
+// odd universe:   key codes stand for look-alike Go keys ("a", a named string type holding "a",
+//                 int 1, int64 1, "1", "", the nil key, an array, a pointer, a 4 KiB string, a
+//                 non-UTF-8 string ...): distinct Go map keys, so the model (distinct codes) is the
+//                 same; value codes 91.. stand for zero values, typed nils and uncomparable values
+//                 (int 0, "", false, (*int)(nil), nil slice / map / func / chan, a slice, a map, a
+//                 func): each is "a value the scope has" and must come back as stored.
+
+type c13Str string
+type c13Num int
+type c13Key struct{ A int }
+
+var (
+	c13KeyCell  = 5
+	c13PtrCell  = 7
+	c13SliceVal = []int{1, 2}
+	c13MapVal   = map[string]int{"x": 1}
+	c13FuncVal  = func() {}
+	c13LongKey  = "a" + strings.Repeat("a", 4096)
+)
+
+// index = key code; 0 unused; the last one is never stored (the key nobody has)
+var c13OddKeys = []interface{}{
+	"unused",
+	"a", c13Str("a"), "ab", ".a", "a\x00", c13LongKey, // 1..6  strings that are prefixes / look-alikes of "a"
+	1, int64(1), "1", c13Num(1), float64(1), true, [1]int{1}, // 7..13 things that print as 1 / true
+	"", nil, "\xff\xfe", &c13KeyCell, c13Key{1}, c13Str(""), uint8(1), // 14..20
+	c13Key{2}, // 21: absent
+}
+
+const c13OddAbsent = 21
+
+var c13OddKeyCode = func() map[interface{}]int {
+	m := map[interface{}]int{}
+	for i := 1; i < len(c13OddKeys); i++ {
+		if _, dup := m[c13OddKeys[i]]; dup {
+			panic("c13: odd key pool is not injective")
+		}
+		m[c13OddKeys[i]] = i
+	}
+	return m
+}()
+
+const (
+	c13VZeroInt = 91 + iota
+	c13VEmptyStr
+	c13VFalse
+	c13VNilPtr
+	c13VNilSlice
+	c13VSlice
+	c13VMap
+	c13VFunc
+	c13VPtr
+	c13VNilFunc
+	c13VNilMap
+	c13VNilChan
+	c13VStruct
+	c13VLast
+)
+
+type c13Univ struct {
+	name    string
+	keys    []int // the key codes of this case
+	absent  int   // a key code nobody has
+	key     func(code int) interface{}
+	keyCode func(k interface{}) (int, bool)
+	val     func(code int) interface{}
+	valCode func(v interface{}) (int, bool)
+	draw    func(rng *RNG) int // a value code to store
+}
 
 func c13Val(v int) interface{} {
 	if v == 0 {
@@ -85,16 +170,157 @@ func c13Int(v interface{}) (int, bool) {
 	return n, ok
 }
 
+func c13PlainU() *c13Univ {
+	return &c13Univ{
+		name: "plain", keys: []int{1, 2, 3, 4, 5, 6}, absent: 9,
+		key: func(c int) interface{} { return c },
+		keyCode: func(k interface{}) (int, bool) {
+			n, ok := k.(int)
+			return n, ok
+		},
+		val:     c13Val,
+		valCode: c13Int,
+		draw: func(rng *RNG) int {
+			if rng.Chance(7) {
+				return 0
+			}
+			return 1 + rng.Intn(90)
+		},
+	}
+}
+
+func c13OddVal(c int) interface{} {
+	switch c {
+	case 0:
+		return nil
+	case c13VZeroInt:
+		return 0
+	case c13VEmptyStr:
+		return ""
+	case c13VFalse:
+		return false
+	case c13VNilPtr:
+		return (*int)(nil)
+	case c13VNilSlice:
+		return []int(nil)
+	case c13VSlice:
+		return c13SliceVal
+	case c13VMap:
+		return c13MapVal
+	case c13VFunc:
+		return c13FuncVal
+	case c13VPtr:
+		return &c13PtrCell
+	case c13VNilFunc:
+		return (func())(nil)
+	case c13VNilMap:
+		return map[string]int(nil)
+	case c13VNilChan:
+		return (chan int)(nil)
+	case c13VStruct:
+		return struct{}{}
+	}
+	return c
+}
+
+func c13OddValCode(v interface{}) (int, bool) {
+	switch x := v.(type) {
+	case nil:
+		return 0, true
+	case int:
+		if x == 0 {
+			return c13VZeroInt, true
+		}
+		return x, x >= 1 && x <= 90
+	case string:
+		return c13VEmptyStr, x == ""
+	case bool:
+		return c13VFalse, !x
+	case *int:
+		if x == nil {
+			return c13VNilPtr, true
+		}
+		return c13VPtr, x == &c13PtrCell
+	case []int:
+		if x == nil {
+			return c13VNilSlice, true
+		}
+		return c13VSlice, len(x) == 2 && &x[0] == &c13SliceVal[0]
+	case map[string]int:
+		if x == nil {
+			return c13VNilMap, true
+		}
+		return c13VMap, reflect.ValueOf(x).Pointer() == reflect.ValueOf(c13MapVal).Pointer()
+	case func():
+		if x == nil {
+			return c13VNilFunc, true
+		}
+		return c13VFunc, reflect.ValueOf(x).Pointer() == reflect.ValueOf(c13FuncVal).Pointer()
+	case chan int:
+		return c13VNilChan, x == nil
+	case struct{}:
+		return c13VStruct, true
+	}
+	return 0, false
+}
+
+// c13OddU draws 6 key codes: one of the two look-alike clusters or a random selection.
+func c13OddU(rng *RNG) *c13Univ {
+	var keys []int
+	switch rng.Intn(3) {
+	case 0:
+		keys = []int{1, 2, 3, 4, 5, 6}
+	case 1:
+		keys = []int{7, 8, 9, 10, 11, 12}
+		keys[rng.Intn(6)] = 13 + rng.Intn(8)
+	default:
+		perm := make([]int, c13OddAbsent-1)
+		for i := range perm {
+			perm[i] = i + 1
+		}
+		for i := len(perm) - 1; i > 0; i-- {
+			j := rng.Intn(i + 1)
+			perm[i], perm[j] = perm[j], perm[i]
+		}
+		keys = perm[:6]
+	}
+	// one special value is drawn again and again: the same zero / typed-nil / uncomparable value
+	// is stored over itself, in a child over its parent, through a locker and plainly
+	fav := c13VZeroInt + rng.Intn(c13VLast-c13VZeroInt)
+	return &c13Univ{
+		name: "odd", keys: keys, absent: c13OddAbsent,
+		key: func(c int) interface{} { return c13OddKeys[c] },
+		keyCode: func(k interface{}) (int, bool) {
+			defer func() { recover() }() // an unhashable key that was never stored
+			c, ok := c13OddKeyCode[k]
+			return c, ok
+		},
+		val:     c13OddVal,
+		valCode: c13OddValCode,
+		draw: func(rng *RNG) int {
+			switch r := rng.Intn(100); {
+			case r < 6:
+				return 0
+			case r < 30:
+				return fav
+			case r < 55:
+				return c13VZeroInt + rng.Intn(c13VLast-c13VZeroInt)
+			}
+			return 1 + rng.Intn(90)
+		},
+	}
+}
+
 type c13Op struct {
 	Kind string // set get keys lset lget lkeys
 	J    int
 	K, V int
 }
 
-func c13KeysOf(ks []interface{}) ([]int, bool) {
+func c13KeysOf(u *c13Univ, ks []interface{}) ([]int, bool) {
 	out := make([]int, 0, len(ks))
 	for _, k := range ks {
-		n, ok := k.(int)
+		n, ok := u.keyCode(k)
 		if !ok {
 			return nil, false
 		}
@@ -125,13 +351,13 @@ func coqChain(st [][][2]int) string {
 }
 
 // c13Build builds the chain: level 0 = innermost child ... last level = root.
-func c13Build(st [][][2]int) []app.DataScope {
+func c13Build(u *c13Univ, st [][][2]int) []app.DataScope {
 	d := len(st)
 	scopes := make([]app.DataScope, d)
 	for i := d - 1; i >= 0; i-- {
 		m := map[interface{}]interface{}{}
 		for _, kv := range st[i] {
-			m[kv[0]] = c13Val(kv[1])
+			m[u.key(kv[0])] = u.val(kv[1])
 		}
 		if i == d-1 {
 			scopes[i] = datascope.New(m)
@@ -153,12 +379,21 @@ func (s c13Shadow) value(j, k int) int {
 	return 0
 }
 
+func c13OwnKeys(m map[int]int) []int {
+	own := make([]int, 0, len(m))
+	for k := range m {
+		own = append(own, k)
+	}
+	sort.Ints(own)
+	return own
+}
+
 func c13Guard(f func()) (kind string) {
 	done := make(chan string, 1)
 	go func() {
 		defer func() {
 			if r := recover(); r != nil {
-				done <- "panic"
+				done <- fmt.Sprint("panic: ", r)
 			}
 		}()
 		f()
@@ -172,36 +407,189 @@ func c13Guard(f func()) (kind string) {
 	}
 }
 
+// an open locked section of the sequential generator: the locker of level J is kept over several
+// operations (nested: the operations go through a locker taken FROM that locker)
+type c13Sec struct {
+	J     int
+	l     app.DataScopeLocker
+	outer app.DataScopeLocker
+	left  int
+}
+
+var c13DeepDepths = []int{9, 17, 33, 70, 150, 400}
+
 func c13Sequential(o *Out, rng *RNG, n int) {
-	keyPool := []int{1, 2, 3, 4, 5, 6}
 	for c := 0; c < n; c++ {
+		u := c13PlainU()
+		if c%3 == 1 {
+			u = c13OddU(rng)
+		}
+		keyPool := u.keys
+		allKeys := append(append([]int{}, keyPool...), u.absent)
 		depth := 1 + rng.Intn(5)
+		deep := c%25 == 7
+		if deep { // the quantifier says ANY depth: a few long chains, sparsely populated
+			depth = c13DeepDepths[(c/25)%len(c13DeepDepths)] + rng.Intn(3)
+		}
 		st := make([][][2]int, depth)
 		shadow := make(c13Shadow, depth)
 		for i := range st {
 			shadow[i] = map[int]int{}
+			pct := 30
+			if deep {
+				pct = 3
+				if i == depth-1 {
+					pct = 70
+				}
+			}
 			for _, k := range keyPool {
-				if rng.Chance(30) {
-					v := 1 + rng.Intn(50)
-					if rng.Chance(8) {
-						v = 0 // a key stored with a nil value is present
-					}
+				if rng.Chance(pct) {
+					v := u.draw(rng)
 					st[i] = append(st[i], [2]int{k, v})
 					shadow[i][k] = v
 				}
 			}
 		}
-		scopes := c13Build(st)
+		scopes := c13Build(u, st)
 		nops := 5 + rng.Intn(30)
-		ops := make([]c13Op, 0, nops)
 		var opsCoq, obsCoq []string
 		var trace []string
 		bad := ""
 		kind := "ok"
-		for i := 0; i < nops && kind == "ok"; i++ {
-			op := c13Op{J: rng.Intn(depth), K: keyPool[rng.Intn(len(keyPool))]}
+		var sec *c13Sec
+		// a second child of level 1 (a sibling of level 0), made in the middle of the history
+		var sib app.DataScope
+		sibShadow := map[int]int{}
+		sibAt := -1
+		if depth >= 2 && rng.Chance(35) {
+			sibAt = rng.Intn(nops)
+		}
+		pickLevel := func() int {
+			if deep && rng.Chance(60) { // the two ends of a long chain
+				if rng.Bool() {
+					return 0
+				}
+				return depth - 1
+			}
+			return rng.Intn(depth)
+		}
+		// everything a caller can see now, against the plain reading of the property
+		lastSet := -1 // level of the SetValue just made
+		sweep := func() {
+			for j := depth - 1; j >= 0 && bad == ""; j-- {
+				if depth > 12 && j > 2 && j < depth-3 && j != depth/2 && (lastSet < 0 || j < lastSet-1 || j > lastSet+1) {
+					continue // long chain: both ends, the middle, and around the last write
+				}
+				for _, k := range allKeys {
+					got, ok := u.valCode(scopes[j].Value(u.key(k)))
+					if want := shadow.value(j, k); got != want || !ok {
+						bad = fmt.Sprintf("level %d Value(key#%d) = value#%d, but the first binding walking up from level %d is value#%d", j, k, got, j, want)
+						if lastSet >= 0 && j > lastSet {
+							bad = fmt.Sprintf("after a SetValue on level %d (a descendant): ", lastSet) + bad
+						}
+						break
+					}
+				}
+				ks, _ := c13KeysOf(u, scopes[j].Keys())
+				if own := c13OwnKeys(shadow[j]); fmt.Sprint(ks) != fmt.Sprint(own) && bad == "" {
+					bad = fmt.Sprintf("level %d Keys() = %v, own keys are %v", j, ks, own)
+				}
+			}
+			if sib != nil && bad == "" {
+				for _, k := range allKeys {
+					want, own := sibShadow[k]
+					if !own {
+						want = shadow.value(1, k)
+					}
+					if got, ok := u.valCode(sib.Value(u.key(k))); got != want || !ok {
+						bad = fmt.Sprintf("a second child of level 1 answers value#%d for key#%d; its own binding, else what level 1 answers, is value#%d", got, k, want)
+						break
+					}
+				}
+				ks, _ := c13KeysOf(u, sib.Keys())
+				if own := c13OwnKeys(sibShadow); fmt.Sprint(ks) != fmt.Sprint(own) && bad == "" {
+					bad = fmt.Sprintf("second child of level 1: Keys() = %v, own keys are %v", ks, own)
+				}
+			}
+		}
+		// what the holder of an open section can see through its locker
+		secSweep := func() {
+			for _, k := range allKeys {
+				got, ok := u.valCode(sec.l.Value(u.key(k)))
+				if want := shadow.value(sec.J, k); got != want || !ok {
+					bad = fmt.Sprintf("inside a locked section of level %d the locker's Value(key#%d) = value#%d; own binding else the parent's current answer is value#%d", sec.J, k, got, want)
+					return
+				}
+			}
+			ks, _ := c13KeysOf(u, sec.l.Keys())
+			if own := c13OwnKeys(shadow[sec.J]); fmt.Sprint(ks) != fmt.Sprint(own) {
+				bad = fmt.Sprintf("inside a locked section of level %d the locker's Keys() = %v, own keys are %v", sec.J, ks, own)
+			}
+		}
+		closeSec := func() {
+			kind = c13Guard(func() {
+				sec.l.Commit()
+				if sec.outer != nil {
+					// the outer locker works again once the nested one is committed
+					got, ok := u.valCode(sec.outer.Value(u.key(keyPool[0])))
+					if want := shadow.value(sec.J, keyPool[0]); got != want || !ok {
+						bad = fmt.Sprintf("after the nested locker's Commit the outer locker of level %d reads value#%d for key#%d, expected value#%d", sec.J, got, keyPool[0], want)
+					}
+					sec.outer.Commit()
+				}
+			})
+			trace = append(trace, fmt.Sprintf("commit(%d)", sec.J))
+			sec = nil
+		}
+		for i := 0; i < nops && kind == "ok" && bad == ""; i++ {
+			if i == sibAt && sec == nil {
+				sib = datascope.NewChild(scopes[1], map[interface{}]interface{}{})
+				trace = append(trace, "second-child-of-level-1")
+				o.Stat("seq_sibling")
+			}
+			if sib != nil && sec == nil && rng.Chance(15) {
+				k, v, plain := keyPool[rng.Intn(len(keyPool))], u.draw(rng), rng.Bool()
+				lastSet = -1
+				kind = c13Guard(func() {
+					if plain {
+						sib.SetValue(u.key(k), u.val(v))
+					} else {
+						l := sib.LockData()
+						l.SetValue(u.key(k), u.val(v))
+						l.Commit()
+					}
+				})
+				sibShadow[k] = v
+				trace = append(trace, fmt.Sprintf("sibling-set(%d,%d)", k, v))
+				if kind == "ok" {
+					if g := c13Guard(sweep); g != "ok" {
+						kind = g
+					}
+				}
+				continue
+			}
+			if sec == nil && rng.Chance(9) {
+				sec = &c13Sec{J: pickLevel(), left: 2 + rng.Intn(5)}
+				nested := rng.Chance(40)
+				kind = c13Guard(func() {
+					sec.l = scopes[sec.J].LockData()
+					if nested {
+						sec.outer = sec.l
+						sec.l = sec.outer.LockData()
+					}
+				})
+				trace = append(trace, fmt.Sprintf("lock(%d,nested=%v)", sec.J, nested))
+				o.Stat("seq_section")
+				if nested {
+					o.Stat("seq_section_nested")
+				}
+				if kind != "ok" {
+					break
+				}
+			}
+			op := c13Op{J: pickLevel(), K: keyPool[rng.Intn(len(keyPool))]}
 			if rng.Chance(5) {
-				op.K = 9 // a key nobody has
+				op.K = u.absent // a key nobody has
 			}
 			switch r := rng.Intn(100); {
 			case r < 30:
@@ -217,71 +605,91 @@ func c13Sequential(o *Out, rng *RNG, n int) {
 			default:
 				op.Kind = "lkeys"
 			}
-			if op.Kind == "set" || op.Kind == "lset" {
-				op.V = 1 + rng.Intn(90)
-				if rng.Chance(7) {
-					op.V = 0
-				}
-			}
-			ops = append(ops, op)
-			o.Stat("seq_" + op.Kind)
-			var obs string
-			before := make([][]int, depth) // ancestors' answers before a set
-			if op.Kind == "set" || op.Kind == "lset" {
-				for a := op.J + 1; a < depth; a++ {
-					for _, k := range append(keyPool, 9) {
-						v, _ := c13Int(scopes[a].Value(k))
-						before[a] = append(before[a], v)
+			inSec := false // the operation goes through the open section's locker
+			if sec != nil {
+				// while level J is locked by us: locker operations on J; plain writes on any other
+				// level; plain reads only ABOVE J (a read below J may have to wait for J's lock)
+				switch r := rng.Intn(100); {
+				case r < 80 || depth == 1:
+					op.J, inSec = sec.J, true
+					op.Kind = []string{"lset", "lset", "lget", "lget", "lkeys"}[rng.Intn(5)]
+				case r < 90:
+					op.Kind = "set"
+					for op.J == sec.J {
+						op.J = rng.Intn(depth)
+					}
+				default:
+					if sec.J == depth-1 {
+						op.J, inSec, op.Kind = sec.J, true, "lget"
+					} else {
+						op.J = sec.J + 1 + rng.Intn(depth-1-sec.J)
+						op.Kind = []string{"set", "get", "keys"}[rng.Intn(3)]
 					}
 				}
 			}
+			if op.Kind == "set" || op.Kind == "lset" {
+				op.V = u.draw(rng)
+			}
+			o.Stat("seq_" + op.Kind)
+			if inSec {
+				o.Stat("seq_in_section")
+			}
+			var obs string
 			kind = c13Guard(func() {
-				sc := scopes[op.J]
+				var sc app.DataScope = scopes[op.J]
+				var lk app.DataScopeLocker
+				if strings.HasPrefix(op.Kind, "l") {
+					if inSec {
+						lk = sec.l
+					} else {
+						lk = sc.LockData()
+					}
+				}
 				switch op.Kind {
 				case "set":
-					sc.SetValue(op.K, c13Val(op.V))
+					sc.SetValue(u.key(op.K), u.val(op.V))
 					obs = "SNone"
 				case "get":
-					v, ok := c13Int(sc.Value(op.K))
+					v, ok := u.valCode(sc.Value(u.key(op.K)))
 					if !ok {
 						bad = "Value returned something that was never stored"
 					}
 					obs = fmt.Sprintf("(SVal %d)", v)
 				case "keys":
-					ks, ok := c13KeysOf(sc.Keys())
+					ks, ok := c13KeysOf(u, sc.Keys())
 					if !ok {
 						bad = "Keys returned a key that was never stored"
 					}
 					obs = fmt.Sprintf("(SKeyset %s)", coqNList(ks))
 				case "lset":
-					l := sc.LockData()
-					l.SetValue(op.K, c13Val(op.V))
-					l.Commit()
+					lk.SetValue(u.key(op.K), u.val(op.V))
 					obs = "SNone"
 				case "lget":
-					l := sc.LockData()
-					v, ok := c13Int(l.Value(op.K))
-					l.Commit()
+					v, ok := u.valCode(lk.Value(u.key(op.K)))
 					if !ok {
 						bad = "locker.Value returned something that was never stored"
 					}
 					obs = fmt.Sprintf("(SVal %d)", v)
 				case "lkeys":
-					l := sc.LockData()
-					ks, ok := c13KeysOf(l.Keys())
-					l.Commit()
+					ks, ok := c13KeysOf(u, lk.Keys())
 					if !ok {
 						bad = "locker.Keys returned a key that was never stored"
 					}
 					obs = fmt.Sprintf("(SKeyset %s)", coqNList(ks))
 				}
+				if lk != nil && !inSec {
+					lk.Commit()
+				}
 			})
 			if kind != "ok" {
+				trace = append(trace, fmt.Sprintf("%s(%d,%d,%d)->%s", op.Kind, op.J, op.K, op.V, kind))
 				break
 			}
+			lastSet = -1
 			switch op.Kind {
 			case "set", "lset":
 				shadow[op.J][op.K] = op.V
+				lastSet = op.J
 				opsCoq = append(opsCoq, fmt.Sprintf("%s %d%%nat %d %d", map[string]string{"set": "SSet", "lset": "SLSet"}[op.Kind], op.J, op.K, op.V))
 			case "get", "lget":
 				opsCoq = append(opsCoq, fmt.Sprintf("%s %d%%nat %d", map[string]string{"get": "SGet", "lget": "SLGet"}[op.Kind], op.J, op.K))
@@ -290,48 +698,52 @@ func c13Sequential(o *Out, rng *RNG, n int) {
 			}
 			obsCoq = append(obsCoq, obs)
 			trace = append(trace, fmt.Sprintf("%s(%d,%d,%d)->%s", op.Kind, op.J, op.K, op.V, obs))
-			// L2 after every op
-			if op.Kind == "set" || op.Kind == "lset" {
-				for a := op.J + 1; a < depth && bad == ""; a++ {
-					for ki, k := range append(keyPool, 9) {
-						v, _ := c13Int(scopes[a].Value(k))
-						if v != before[a][ki] {
-							bad = fmt.Sprintf("SetValue on level %d changed Value(%d) of its ancestor level %d from %d to %d", op.J, k, a, before[a][ki], v)
-						}
-					}
-				}
-				if v, _ := c13Int(scopes[op.J].Value(op.K)); v != op.V && bad == "" {
-					bad = fmt.Sprintf("Value(%d) on level %d is %d right after SetValue(%d,%d)", op.K, op.J, v, op.K, op.V)
-				}
-			}
-			for j := 0; j < depth && bad == ""; j++ {
-				for _, k := range append(keyPool, 9) {
-					got, _ := c13Int(scopes[j].Value(k))
-					if want := shadow.value(j, k); got != want {
-						bad = fmt.Sprintf("level %d Value(%d) = %d, but the first binding walking up from level %d is %d", j, k, got, j, want)
-						break
-					}
-				}
-				ks, _ := c13KeysOf(scopes[j].Keys())
-				own := make([]int, 0)
-				for k := range shadow[j] {
-					own = append(own, k)
-				}
-				sort.Ints(own)
-				if fmt.Sprint(ks) != fmt.Sprint(own) && bad == "" {
-					bad = fmt.Sprintf("level %d Keys() = %v, own keys are %v", j, ks, own)
-				}
-			}
 			if bad != "" {
 				break
 			}
+			// L2 after every op
+			if sec != nil {
+				if g := c13Guard(secSweep); g != "ok" {
+					kind = g
+					break
+				}
+				if sec.left--; sec.left <= 0 && bad == "" {
+					closeSec()
+				}
+			}
+			if sec == nil && kind == "ok" && bad == "" {
+				if g := c13Guard(sweep); g != "ok" {
+					kind = g
+				}
+			}
 		}
-		desc := map[string]interface{}{"op": "seq", "chain_child_first": st, "history": trace}
-		key := fmt.Sprint("q:", st, trace)
-		o.Stat(fmt.Sprintf("seq_depth_%d", depth))
+		if sec != nil && kind == "ok" && bad == "" {
+			closeSec()
+			if kind == "ok" && bad == "" {
+				if g := c13Guard(sweep); g != "ok" {
+					kind = g
+				}
+			}
+		}
+		desc := map[string]interface{}{"op": "seq", "universe": u.name, "key_codes": keyPool, "chain_child_first": st, "history": trace}
+		if deep {
+			desc["chain_child_first"] = fmt.Sprintf("depth %d (sparse), root = %v", depth, st[depth-1])
+		}
+		key := fmt.Sprint("q:", u.name, keyPool, st, trace)
+		if deep {
+			o.Stat("seq_depth_deep")
+		} else {
+			o.Stat(fmt.Sprintf("seq_depth_%d", depth))
+		}
+		o.Stat("seq_universe_" + u.name)
 		if kind != "ok" {
-			o.Stat("seq_" + kind)
-			o.Fail("no_"+kind, "a data scope operation ended in "+kind, kind, desc)
+			cls := kind
+			if strings.HasPrefix(kind, "panic") {
+				cls = "panic"
+			}
+			o.Stat("seq_" + cls)
+			desc["ended_in"] = kind
+			o.Fail("no_"+cls, "a data scope operation ended in "+kind, cls, desc)
 			o.CountEval(key, true)
 			continue
 		}
@@ -344,14 +756,37 @@ func c13Sequential(o *Out, rng *RNG, n int) {
 
 const c13Marker = -1
 
+// keys of the concurrent runs: the counter, the plain writers' keys 1000+r, and PAIRS of fresh
+// keys (c13PairBase+2n, +2n+1) that a locked section adds together
+const c13PairBase = 100000
+
 type c13Section struct {
 	T, V int
 }
 
+// c13PairsWhole: a listing taken by anybody else shows both keys of a pair or none.
+func c13PairsWhole(ks []interface{}) string {
+	seen := map[int]bool{}
+	for _, k := range ks {
+		if n, ok := k.(int); ok && n >= c13PairBase {
+			seen[n] = true
+		}
+	}
+	for n := range seen {
+		if !seen[n^1] {
+			return fmt.Sprintf("a key listing shows key %d without key %d: both are added inside ONE locked section", n, n^1)
+		}
+	}
+	return ""
+}
+
 // c13Counter runs nthreads x iters locked increments of key k on scope j of the chain; readers > 0
-// adds plain readers/writers.  Returns the recorded sections, the final value, failure text.
+// adds other goroutines, by r%5: 0 plain reader+writer on the scope, 1 plain reader through the
+// innermost child, 2 key listings (plain and under the lock), 3 a locked section of the scope's
+// CHILD reading k through the overlay (every second time through a nested locker), 4 a read-only
+// locked section on the scope itself.  Returns the recorded sections, the final value, failure text.
 func c13Counter(st [][][2]int, j, k, nthreads, iters, readers int, record bool) (sections []c13Section, final int, bad string, hang bool) {
-	scopes := c13Build(st)
+	scopes := c13Build(c13PlainU(), st)
 	sc := scopes[j]
 	var recMu sync.Mutex
 	var wg sync.WaitGroup
@@ -376,14 +811,31 @@ func c13Counter(st [][][2]int, j, k, nthreads, iters, readers int, record bool) 
 				if !ok || v == c13Marker {
 					setBad(fmt.Sprintf("goroutine %d read %v under the lock (another section's unfinished write)", t, l.Value(k)))
 				}
+				w0 := l.Value(1000) // the key a plain writer keeps writing
 				if record {
 					recMu.Lock()
 					sections = append(sections, c13Section{t, v})
 					recMu.Unlock()
 				}
 				l.SetValue(k, c13Marker)
-				if i%64 == 0 {
-					time.Sleep(0)
+				pair := i%8 == 0
+				if pair {
+					l.SetValue(c13PairBase+2*(t*iters+i), 1)
+				}
+				if i%8 == 4 {
+					runtime.Gosched()
+				}
+				if i%250 == 125 {
+					time.Sleep(20 * time.Microsecond) // now and then the section stays open for a while
+				}
+				if pair {
+					l.SetValue(c13PairBase+2*(t*iters+i)+1, 1)
+				}
+				if own, _ := c13Int(l.Value(k)); own != c13Marker {
+					setBad(fmt.Sprintf("goroutine %d wrote the marker under the lock and reads %v back before its Commit", t, l.Value(k)))
+				}
+				if w1 := l.Value(1000); w1 != w0 {
+					setBad(fmt.Sprintf("a plain SetValue(1000, ..) of another goroutine took effect inside a locked section: %v then %v", w0, w1))
 				}
 				l.SetValue(k, v+1)
 				l.Commit()
@@ -399,23 +851,66 @@ func c13Counter(st [][][2]int, j, k, nthreads, iters, readers int, record bool) 
 			last := -1 << 30
 			mine := 1000 + r
 			for n := 1; atomic.LoadInt32(&stop) == 0; n++ {
-				// plain read on the scope (and, through the overlay, from the innermost child)
 				var got interface{}
-				if r%2 == 0 {
+				how := "a plain reader"
+				switch kind := r % 5; {
+				case kind == 0:
 					got = sc.Value(k)
-				} else {
-					got = scopes[0].Value(k)
+				case kind == 1:
+					got = scopes[0].Value(k) // through the overlay, from the innermost child
+				case kind == 2:
+					how = "a reader after a key listing"
+					ks := sc.Keys()
+					if n%2 == 0 {
+						l := sc.LockData()
+						ks = l.Keys()
+						l.Commit()
+					}
+					if s := c13PairsWhole(ks); s != "" {
+						setBad(s)
+						return
+					}
+					if n%4 == 1 {
+						scopes[0].Keys()
+					}
+					got = sc.Value(k)
+				case kind == 3 && j > 0:
+					// nobody below the scope owns k: the child's locker reads it from the scope
+					how = "a locked section of the scope's child, reading through the overlay,"
+					l := scopes[j-1].LockData()
+					if n%2 == 0 {
+						l2 := l.LockData()
+						got = l2.Value(k)
+						l2.Commit()
+					} else {
+						got = l.Value(k)
+					}
+					l.Commit()
+				default:
+					how = "a read-only locked section"
+					l := sc.LockData()
+					got = l.Value(k)
+					runtime.Gosched()
+					if again := l.Value(k); again != got {
+						l.Commit()
+						setBad(fmt.Sprintf("a read-only locked section read %v and then %v: somebody's write took effect inside it", got, again))
+						return
+					}
+					l.Commit()
 				}
 				v, ok := c13Int(got)
 				if !ok || v == c13Marker {
-					setBad(fmt.Sprintf("a plain reader observed %v: a value written inside a locked section before its Commit", got))
+					setBad(fmt.Sprintf("%s observed %v: a value written inside a locked section before its Commit", how, got))
 					return
 				}
 				if v < last {
-					setBad(fmt.Sprintf("a plain reader observed %d after %d: a committed increment was lost", v, last))
+					setBad(fmt.Sprintf("%s observed %d after %d: a committed increment was lost", how, v, last))
 					return
 				}
 				last = v
+				if r%5 > 1 {
+					continue
+				}
 				// plain write of another key on the same scope, read back
 				sc.SetValue(mine, n)
 				if w, _ := c13Int(sc.Value(mine)); w != n {
@@ -443,14 +938,176 @@ func c13Counter(st [][][2]int, j, k, nthreads, iters, readers int, record bool) 
 		return nil, 0, "plain readers did not finish within 10 s", true
 	}
 	final, _ = c13Int(sc.Value(k))
+	if s := c13PairsWhole(sc.Keys()); s != "" && bad == "" {
+		bad = s
+	}
 	return sections, final, bad, false
 }
 
-func c13Concurrent(o *Out, rng *RNG, nbig, nsmall int) bool {
-	mk := func() ([][][2]int, int, int, int) {
-		depth := 1 + rng.Intn(3)
+// c13Forced: the schedule of the exclusion clause, forced.  One goroutine takes the data lock of
+// scope j, writes, and only THEN lets the others go - a plain Value on the scope, a Value through
+// the innermost child, a locked section of the scope's child reading through the overlay (plain and
+// through a nested locker), LockData, a plain SetValue, Keys, locker Keys.  It keeps the section
+// open for a moment, writes again and commits.  Every one of the others began after the lock was
+// taken, so none of them may be over before the Commit begins and each must see the committed state.
+func c13Forced(o *Out, rng *RNG, rounds int) bool {
+	const k, wkey, nkey, pairA, pairB = 7, 1000, 1001, c13PairBase, c13PairBase + 1
+	for n := 0; n < rounds; n++ {
+		depth, j := c13CounterShapes[n%len(c13CounterShapes)][0], c13CounterShapes[n%len(c13CounterShapes)][1]
 		st := make([][][2]int, depth)
-		j := rng.Intn(depth)
+		init := 0
+		switch rng.Intn(3) {
+		case 0:
+			init = 1 + rng.Intn(40)
+			st[j] = append(st[j], [2]int{k, init})
+		case 1:
+			if j+1 < depth {
+				init = 1 + rng.Intn(40)
+				st[j+1+rng.Intn(depth-j-1)] = [][2]int{{k, init}}
+			}
+		}
+		scopes := c13Build(c13PlainU(), st)
+		sc := scopes[j]
+		final := 50 + rng.Intn(40)
+		type observer struct {
+			name string
+			run  func() string
+		}
+		wantVal := func(how string, got interface{}) string {
+			if v, ok := c13Int(got); !ok || v != final {
+				return fmt.Sprintf("%s, begun while another goroutine held the scope's data lock, answered %v; the section went from %d over %d to %d", how, got, init, c13Marker, final)
+			}
+			return ""
+		}
+		wantKeys := func(how string, ks []interface{}) string {
+			have := map[interface{}]bool{}
+			for _, x := range ks {
+				have[x] = true
+			}
+			if !have[k] || !have[pairA] || !have[pairB] {
+				return fmt.Sprintf("%s, begun while another goroutine held the scope's data lock, lists %v: the section added %d, %d and %d", how, ks, k, pairA, pairB)
+			}
+			return ""
+		}
+		obs := []observer{
+			{"plain Value", func() string { return wantVal("a plain Value", sc.Value(k)) }},
+			{"LockData", func() string {
+				l := sc.LockData()
+				got := l.Value(k)
+				l.Commit()
+				return wantVal("a second LockData", got)
+			}},
+			{"plain SetValue", func() string { sc.SetValue(wkey, 77); return "" }},
+			{"plain SetValue of nil", func() string { sc.SetValue(nkey, nil); return "" }},
+			{"Keys", func() string { return wantKeys("a plain Keys", sc.Keys()) }},
+			{"locker Keys", func() string {
+				l := sc.LockData()
+				ks := l.Keys()
+				l.Commit()
+				return wantKeys("Keys of a second LockData", ks)
+			}},
+		}
+		if j > 0 {
+			obs = append(obs,
+				observer{"Value through the innermost child", func() string {
+					return wantVal("a Value through the innermost child", scopes[0].Value(k))
+				}},
+				observer{"child's locked section", func() string {
+					l := scopes[j-1].LockData()
+					got := l.Value(k)
+					l.Commit()
+					return wantVal("a locked section of the scope's child, reading through the overlay", got)
+				}},
+				observer{"child's nested locker", func() string {
+					l := scopes[j-1].LockData()
+					l2 := l.LockData()
+					got := l2.Value(k)
+					l2.Commit()
+					l.Commit()
+					return wantVal("a nested locker of the scope's child, reading through the overlay", got)
+				}})
+		}
+		desc := map[string]interface{}{"op": "forced-section", "chain_child_first": st, "scope": j, "key": k, "initial": init, "final": final}
+		o.CountEval(fmt.Sprint("forced:", n, st, j), true)
+		o.Stat("forced_section")
+		var bad []string
+		var started, committing, early int32
+		res := make([]string, len(obs))
+		var wg sync.WaitGroup
+		kind := c13Guard(func() {
+			l := sc.LockData()
+			l.SetValue(k, c13Marker)
+			l.SetValue(pairA, 1)
+			l.SetValue(nkey, 5)
+			w0 := l.Value(wkey)
+			for i := range obs {
+				wg.Add(1)
+				go func(i int) {
+					defer wg.Done()
+					defer func() {
+						if r := recover(); r != nil {
+							res[i] = fmt.Sprint(obs[i].name, " panicked: ", r)
+						}
+					}()
+					atomic.AddInt32(&started, 1)
+					res[i] = obs[i].run()
+					if atomic.LoadInt32(&committing) == 0 {
+						atomic.AddInt32(&early, 1)
+						res[i] = obs[i].name + " of another goroutine was over while the data lock taken before it was still held; " + res[i]
+					}
+				}(i)
+			}
+			for w := 0; atomic.LoadInt32(&started) < int32(len(obs)) && w < 200000; w++ {
+				runtime.Gosched()
+			}
+			time.Sleep(time.Duration(300+rng.Intn(1500)) * time.Microsecond)
+			if w1 := l.Value(wkey); w1 != w0 {
+				bad = append(bad, fmt.Sprintf("a plain SetValue(%d, 77) of another goroutine took effect inside the locked section: the holder read %v, then %v", wkey, w0, w1))
+			}
+			if got, _ := c13Int(l.Value(nkey)); got != 5 {
+				bad = append(bad, fmt.Sprintf("a plain SetValue(%d, nil) of another goroutine took effect inside the locked section: the holder wrote 5 and reads %v", nkey, l.Value(nkey)))
+			}
+			if got, _ := c13Int(l.Value(k)); got != c13Marker {
+				bad = append(bad, fmt.Sprintf("the holder wrote %d under the lock and reads %v before its Commit", c13Marker, l.Value(k)))
+			}
+			l.SetValue(pairB, 1)
+			l.SetValue(k, final)
+			atomic.StoreInt32(&committing, 1)
+			l.Commit()
+		})
+		if kind == "ok" {
+			kind = c13Guard(wg.Wait)
+		}
+		if kind != "ok" {
+			o.Fail("no_hang", "a forced locked section with waiting readers / writers ended in "+kind, "hang", desc)
+			return false
+		}
+		for _, r := range res {
+			if r != "" {
+				bad = append(bad, r)
+			}
+		}
+		if w, _ := c13Int(sc.Value(wkey)); w != 77 {
+			bad = append(bad, fmt.Sprintf("the plain SetValue(%d, 77) made during the section is lost after it: Value = %v", wkey, sc.Value(wkey)))
+		}
+		if w := sc.Value(nkey); w != nil {
+			bad = append(bad, fmt.Sprintf("the plain SetValue(%d, nil) made during the section is lost after it: Value = %v", nkey, w))
+		}
+		if len(bad) > 0 {
+			desc["all"] = bad
+			o.Fail("exclusive", bad[0], "exclusive", desc)
+		}
+	}
+	return true
+}
+
+// every position of the locked scope in a chain: alone, root with a child, leaf, middle, ...
+var c13CounterShapes = [][2]int{{1, 0}, {2, 1}, {2, 0}, {3, 1}, {3, 2}, {3, 0}}
+
+func c13Concurrent(o *Out, rng *RNG, nbig, nsmall int) bool {
+	mk := func(n int) ([][][2]int, int, int, int) {
+		depth, j := c13CounterShapes[n%len(c13CounterShapes)][0], c13CounterShapes[n%len(c13CounterShapes)][1]
+		st := make([][][2]int, depth)
 		k := 7
 		init := 0
 		// the key starts in the scope itself, in an ancestor, or nowhere
@@ -473,11 +1130,12 @@ func c13Concurrent(o *Out, rng *RNG, nbig, nsmall int) bool {
 		return st, j, k, init
 	}
 	for b := 0; b < nbig; b++ {
-		st, j, k, init := mk()
-		_, final, bad, hang := c13Counter(st, j, k, 8, 2000, 3, false)
-		desc := map[string]interface{}{"op": "counter", "chain_child_first": st, "scope": j, "key": k, "goroutines": 8, "iterations": 2000, "initial": init, "final": final}
+		st, j, k, init := mk(b)
+		_, final, bad, hang := c13Counter(st, j, k, 8, 2000, 10, false)
+		desc := map[string]interface{}{"op": "counter", "chain_child_first": st, "scope": j, "key": k, "goroutines": 8, "iterations": 2000, "others": 10, "initial": init, "final": final}
 		o.CountEval(fmt.Sprint("cb:", b, st, j), true)
 		o.Stat("counter_8x2000")
+		o.Stat(fmt.Sprintf("counter_depth%d_scope%d", len(st), j))
 		if hang {
 			o.Fail("no_hang", bad, "hang", desc)
 			return false
@@ -490,10 +1148,11 @@ func c13Concurrent(o *Out, rng *RNG, nbig, nsmall int) bool {
 		}
 	}
 	for b := 0; b < nsmall; b++ {
-		st, j, k, init := mk()
+		st, j, k, init := mk(rng.Intn(len(c13CounterShapes)))
 		nth, iters := 2+rng.Intn(5), 5+rng.Intn(40)
-		sections, final, bad, hang := c13Counter(st, j, k, nth, iters, rng.Intn(2), true)
-		desc := map[string]interface{}{"op": "counter-recorded", "chain_child_first": st, "scope": j, "key": k, "goroutines": nth, "iterations": iters, "initial": init, "final": final}
+		others := 5 * rng.Intn(2)
+		sections, final, bad, hang := c13Counter(st, j, k, nth, iters, others, true)
+		desc := map[string]interface{}{"op": "counter-recorded", "chain_child_first": st, "scope": j, "key": k, "goroutines": nth, "iterations": iters, "others": others, "initial": init, "final": final}
 		o.Stat("counter_recorded")
 		if hang {
 			o.Fail("no_hang", bad, "hang", desc)
@@ -522,6 +1181,42 @@ func c13Concurrent(o *Out, rng *RNG, nbig, nsmall int) bool {
 	return true
 }
 
+// c13Race starts G goroutines at the same instant (spin barrier) and waits for them.
+func c13Race(G int, f func(g int)) (panics int32, hang bool) {
+	var wg sync.WaitGroup
+	var ready, start int32
+	for g := 0; g < G; g++ {
+		wg.Add(1)
+		go func(g int) {
+			defer wg.Done()
+			defer func() {
+				if r := recover(); r != nil {
+					atomic.AddInt32(&panics, 1)
+				}
+			}()
+			atomic.AddInt32(&ready, 1)
+			for spins := 0; atomic.LoadInt32(&start) == 0; spins++ {
+				if spins > 2000 {
+					runtime.Gosched()
+				}
+			}
+			f(g)
+		}(g)
+	}
+	for w := 0; atomic.LoadInt32(&ready) < int32(G) && w < 200000; w++ {
+		runtime.Gosched()
+	}
+	atomic.StoreInt32(&start, 1)
+	done := make(chan struct{})
+	go func() { wg.Wait(); close(done) }()
+	select {
+	case <-done:
+		return atomic.LoadInt32(&panics), false
+	case <-time.After(10 * time.Second):
+		return 0, true
+	}
+}
+
 func c13Services(o *Out, rng *RNG, rounds int) {
 	tasksUnit := tasks.NewUnit(tasks.UnitDeps{NamespacesUnit: namespaces.NewUnit()})
 	envsUnit := &envs.Unit{}
@@ -536,50 +1231,53 @@ func c13Services(o *Out, rng *RNG, rounds int) {
 	}
 	for r := 0; r < rounds; r++ {
 		for _, svc := range services {
-			// the scope's data scope is a root or a child of a parent (nobody has an instance yet)
+			// where the callers' scope sits: a root data scope; a child data scope of an empty
+			// parent; a real child SCOPE (scope.NewChild) of a parent scope that has no instance /
+			// that already has one / that gets one while the callers run
 			var ds app.DataScope = datascope.New(map[interface{}]interface{}{})
-			child := rng.Chance(40)
-			if child {
-				ds = datascope.NewChild(ds, map[interface{}]interface{}{})
+			shape := []string{"root", "root", "child-data", "child-data", "child-scope", "child-scope-parent-has", "child-scope-parent-races"}[rng.Intn(7)]
+			var scp, parent app.Scope
+			switch shape {
+			case "root":
+				scp = scope.New(scope.Params{DataScope: ds})
+			case "child-data":
+				scp = scope.New(scope.Params{DataScope: datascope.NewChild(ds, map[interface{}]interface{}{})})
+			default:
+				parent = scope.New(scope.Params{DataScope: ds})
+				scp = scope.NewChild(parent, scope.ChildParams{})
 			}
-			scp := scope.New(scope.Params{DataScope: ds})
+			desc := map[string]interface{}{"op": "get-or-create", "service": svc.name, "goroutines": 16, "scope": shape}
+			var parentIns interface{}
+			if shape == "child-scope-parent-has" {
+				parentIns, _ = svc.get(parent)
+			}
+			if parent != nil && r%8 == 0 {
+				// the overlay through the constructors the application uses (scope.NewChild)
+				type probeKey struct{}
+				parent.SetValue(probeKey{}, 1)
+				up := scp.Value(probeKey{})
+				scp.SetValue(probeKey{}, 2)
+				if up != 1 || scp.Value(probeKey{}) != 2 || parent.Value(probeKey{}) != 1 {
+					o.Fail("overlay", fmt.Sprintf("scope.NewChild: the child scope read %v for a key only its parent had (1); after the child stored 2 the child reads %v and the parent %v",
+						up, scp.Value(probeKey{}), parent.Value(probeKey{})), "overlay", desc)
+				}
+			}
 			const G = 16
-			got := make([]interface{}, G)
-			errs := make([]error, G)
-			var panics int32
-			var wg sync.WaitGroup
-			var ready, start int32
-			for g := 0; g < G; g++ {
-				wg.Add(1)
-				go func(g int) {
-					defer wg.Done()
-					defer func() {
-						if r := recover(); r != nil {
-							atomic.AddInt32(&panics, 1)
-						}
-					}()
-					// spin barrier: all callers enter the service at the same instant
-					atomic.AddInt32(&ready, 1)
-					for spins := 0; atomic.LoadInt32(&start) == 0; spins++ {
-						if spins > 2000 {
-							runtime.Gosched()
-						}
+			got := make([]interface{}, G+1)
+			errs := make([]error, G+1)
+			panics, hang := c13Race(G+1, func(g int) {
+				if g == G { // one more goroutine: the parent scope's own first request, or nothing
+					if shape == "child-scope-parent-races" {
+						got[g], errs[g] = svc.get(parent)
 					}
-					got[g], errs[g] = svc.get(scp)
-				}(g)
-			}
-			for w := 0; atomic.LoadInt32(&ready) < G && w < 200000; w++ {
-				runtime.Gosched()
-			}
-			atomic.StoreInt32(&start, 1)
-			done := make(chan struct{})
-			go func() { wg.Wait(); close(done) }()
-			desc := map[string]interface{}{"op": "get-or-create", "service": svc.name, "goroutines": G, "child_scope": child}
+					return
+				}
+				got[g], errs[g] = svc.get(scp)
+			})
 			o.CountEval(fmt.Sprint("svc:", svc.name, r), true)
 			o.Stat("svc_" + svc.name)
-			select {
-			case <-done:
-			case <-time.After(10 * time.Second):
+			o.Stat("svc_scope_" + shape)
+			if hang {
 				o.Fail("no_hang", svc.name+" from 16 goroutines did not return within 10 s", "hang", desc)
 				return
 			}
@@ -597,9 +1295,81 @@ func c13Services(o *Out, rng *RNG, rounds int) {
 			}
 			again, _ := svc.get(scp)
 			distinct[again] = true
-			if len(distinct) != 1 {
+			// the callers of ONE scope share one instance; this also holds while the parent scope
+			// gets its own instance: the child's sections are serialised, the first one either sees
+			// the parent's instance (then it stays visible and nobody creates another one) or
+			// creates the child's own one (then every later section finds that)
+			limit := 1
+			if shape == "child-scope-parent-races" {
+				if errs[G] != nil || got[G] == nil {
+					o.Fail("get_or_create", svc.name+" returned an error / nil instance for the parent scope", "goc-nil", desc)
+				}
+				if pa, _ := svc.get(parent); pa != got[G] {
+					o.Fail("get_or_create", svc.name+" answers another instance for the parent scope on the second request", "goc-many", desc)
+				}
+			}
+			if len(distinct) > limit {
 				desc["distinct_instances"] = len(distinct)
 				o.Fail("get_or_create", fmt.Sprintf("%s handed out %d distinct instances to 16 concurrent callers on one scope", svc.name, len(distinct)), "goc-many", desc)
+			}
+			if shape == "child-scope-parent-has" {
+				if pa, _ := svc.get(parent); pa != parentIns {
+					o.Fail("get_or_create", svc.name+": requests on a child scope replaced the instance of the parent scope", "goc-parent", desc)
+				}
+			}
+		}
+		// tasks.Unit: BindScope / Clear are plain writes of the same key from other goroutines
+		if r%5 == 0 {
+			scp := scope.New(scope.Params{DataScope: datascope.New(map[interface{}]interface{}{})})
+			desc := map[string]interface{}{"op": "get-or-create", "service": "tasks.Unit.FromScope + Clear/BindScope", "goroutines": 9}
+			bound, _ := tasksUnit.FromScope(scope.New(scope.Params{}))
+			const G, N, C = 8, 12, 4
+			var mu sync.Mutex
+			distinct := map[interface{}]bool{}
+			nilSeen := false
+			panics, hang := c13Race(G+1, func(g int) {
+				if g == G {
+					for c := 0; c < C; c++ {
+						runtime.Gosched()
+						tasksUnit.Clear(scp)
+					}
+					return
+				}
+				for n := 0; n < N; n++ {
+					m, err := tasksUnit.FromScope(scp)
+					mu.Lock()
+					if err != nil || m == nil {
+						nilSeen = true
+					} else {
+						distinct[m] = true
+					}
+					mu.Unlock()
+				}
+			})
+			o.CountEval(fmt.Sprint("svc-clear:", r), true)
+			o.Stat("svc_tasks_clear_race")
+			switch {
+			case hang:
+				o.Fail("no_hang", "tasks.Unit.FromScope against Clear did not return within 10 s", "hang", desc)
+				return
+			case panics > 0:
+				o.Fail("no_panic", "tasks.Unit.FromScope against Clear panicked", "panic", desc)
+			case nilSeen:
+				o.Fail("get_or_create", "tasks.Unit.FromScope returned an error / nil instance while another goroutine cleared the scope", "goc-nil", desc)
+			case len(distinct) > C+1:
+				desc["distinct_instances"] = len(distinct)
+				o.Fail("get_or_create", fmt.Sprintf("tasks.Unit.FromScope created %d managers on one scope that was cleared %d times (at most %d)", len(distinct), C, C+1), "goc-many", desc)
+			}
+			// a bound manager is the scope's value: every later request answers it
+			tasksUnit.BindScope(scp, bound)
+			var wrong int32
+			c13Race(G, func(g int) {
+				if m, _ := tasksUnit.FromScope(scp); m != bound {
+					atomic.AddInt32(&wrong, 1)
+				}
+			})
+			if wrong > 0 {
+				o.Fail("get_or_create", "tasks.Unit.FromScope did not answer the manager that BindScope had stored in the scope", "goc-bound", desc)
 			}
 		}
 	}
@@ -610,16 +1380,21 @@ func runC13Child(o *Out, rng *RNG, tier string) {
 	o.CaseType = "case"
 	o.CheckFn = "check"
 	o.ShardSize = 120
-	o.Rule = "(1) random chains of depth 1..5 over 6 keys (+1 absent key), histories of 5..34 SetValue/Value/Keys/locker ops on random levels, " +
-		"values incl. stored nil — every observation compared with the model, overlay/set-local/Keys oracles after every op; (2) 8 goroutines x 2000 " +
-		"locked increments with plain readers and writers (final = initial+16000, no marker seen, no decrease), plus recorded smaller runs replayed " +
-		"by the model; (3) the three get-or-create services from 16 goroutines per scope (one instance). Non-trivial: chain depth >= 2; every concurrent run."
-	nseq, nbig, nsmall, nsvc := 400, 6, 40, 2500
+	o.Rule = "(1) random chains of depth 1..5 (every 25th: 9..402, sparse) over 6 keys (+1 absent key), histories of 5..34 SetValue/Value/Keys/locker ops on random levels, " +
+		"single-op and multi-op locked sections (40% through a nested locker; plain ops on other levels in between), a second child of level 1 made mid-history; " +
+		"a third of the cases over look-alike keys (\"a\", named-string \"a\", 1, int64 1, \"1\", \"\", nil, array, pointer, 4 KiB, non-UTF-8) and " +
+		"zero / typed-nil / uncomparable values besides stored nil — every observation compared with the model, overlay/set-local/Keys oracles after every op; " +
+		"(2) forced schedule: a holder keeps a section open while a plain Value / SetValue / Keys, a second LockData and the child's lockers begin - none is over before the Commit, all see the committed state; 8 goroutines x 2000 locked increments on every position of a chain (alone, root, middle, leaf) with plain readers and writers, key listings, " +
+		"read-only locked sections and locked sections of the child reading through the overlay (final = initial+16000, no marker seen, no decrease, " +
+		"key pairs whole, no foreign write inside a section), plus recorded smaller runs replayed by the model; (3) the three get-or-create services from " +
+		"16 goroutines per scope (root / child data scope / real child scope whose parent has, lacks or concurrently gets an instance), FromScope against " +
+		"Clear and BindScope. Non-trivial: chain depth >= 2; every concurrent run."
+	nseq, nforced, nbig, nsmall, nsvc := 400, 60, 12, 40, 2500
 	if tier == "thorough" {
-		nseq, nbig, nsmall, nsvc = 12000, 120, 1500, 60000
+		nseq, nforced, nbig, nsmall, nsvc = 12000, 1200, 120, 1500, 60000
 	}
 	c13Sequential(o, rng, nseq)
-	if c13Concurrent(o, rng, nbig, nsmall) {
+	if c13Forced(o, rng, nforced) && c13Concurrent(o, rng, nbig, nsmall) {
 		c13Services(o, rng, nsvc)
 	}
 }
